@@ -69,6 +69,10 @@ func RandomSpec(r *sim.Rand) DocSpec {
 	}
 	sp.Shuffle = on(density)
 	sp.Renumber = on(density)
+	if r.Pct(4) {
+		sp.Bulk = 210 + r.Intn(900)
+		sp.EOL = sim.Pick(r, []int{0, 1, 1, 2})
+	}
 	sp.SplitXRef = on(density / 2)
 	if on(density) {
 		sp.LenMode = 1 + r.Intn(2)
@@ -153,6 +157,7 @@ func (sp DocSpec) Features() []string {
 	add(anyStream && sp.WidePad > 0, "xrefstm=wide")
 	add(sp.Shuffle, "shuffle")
 	add(sp.Renumber, "renumber")
+	add(sp.Bulk > 0, "bulk")
 	add(sp.SplitXRef, "split-xref")
 	add(sp.LenMode == 1, "len=indirect-before")
 	add(sp.LenMode == 2, "len=indirect-after")
@@ -423,6 +428,13 @@ func (sp DocSpec) Shrinks() []DocSpec {
 		return true
 	})
 	try(func(s *DocSpec) bool {
+		if s.Bulk == 0 {
+			return false
+		}
+		s.Bulk = 0
+		return true
+	})
+	try(func(s *DocSpec) bool {
 		if !s.Renumber {
 			return false
 		}
@@ -644,6 +656,8 @@ func SpecWithFeatures(features []string) (DocSpec, bool) {
 			sp.Shuffle = true
 		case f == "renumber":
 			sp.Renumber = true
+		case f == "bulk":
+			sp.Bulk = 300
 		case f == "split-xref":
 			sp.SplitXRef = true
 		case f == "len=indirect-before":
@@ -819,6 +833,8 @@ func (sp DocSpec) Without(f string) DocSpec {
 		c.Shuffle = false
 	case f == "renumber":
 		c.Renumber = false
+	case f == "bulk":
+		c.Bulk = 0
 	case f == "split-xref":
 		c.SplitXRef = false
 	case f == "len=indirect-before", f == "len=indirect-after":
@@ -910,7 +926,7 @@ func (sp DocSpec) PlainStorage() DocSpec {
 	c.XRef = make([]int, len(sp.XRef))
 	c.EOL, c.Tight, c.Loose, c.Comments, c.HexPct, c.NameEsc, c.DictBreak = 0, false, false, false, 0, false, false
 	c.ObjStm, c.ObjStmN, c.ObjStmZ, c.XRefZ, c.WidePad = 0, 0, false, 0, 0
-	c.Shuffle, c.Renumber, c.SplitXRef = false, false, false
+	c.Shuffle, c.Renumber, c.SplitXRef, c.Bulk = false, false, false, 0
 	c.LenMode, c.LenInStm, c.Filter, c.Predictor, c.Split = 0, false, 0, 0, 0
 	c.ContentsArr, c.ContentsRef = false, false
 	c.TreeDepth, c.InheritAt, c.InheritVary, c.ResIndirect, c.FontPartsIndirect, c.KidsRef = 1, 0, false, false, false, false
